@@ -141,7 +141,7 @@ CLAIMED = {
              'offset < back_offset — apply the step to (path, own cursor), store the returned offset into that cursor only and return the returned segment; is_absolute() and is_empty() are decided as predicates over all byte strings by Engine S (true exactly on texts starting with "/" resp. on "" and "/"), first_segment_offset is 1 iff is_absolute(); '
              'first(), last(), file_name(), segment_count() are the corresponding steps; parent() is executed abstractly in mirror mode against spec/segments.abnf parent-text (None for "", "/" and a single relative segment, the root for "/x", "/./" for "//x", otherwise the text before the LAST "/"), parent_or_empty() = parent() or the empty path of the same kind (Engine S with parent() and the kind answering every way). The induction over interleavings (DESIGN.md §10.7) is a short pen-and-paper argument over these mechanically checked facts.',
         design_ref='DESIGN.md §10.7',
-        note='NOT decided: normalized_segments().len() (the normalised sequence, as in C09), and the mechanisation of the induction step itself. '
+        note='The length reported by the normalised-segment iterator: its three layers forward next / next_back / size_hint unchanged to the smallvec::IntoIter that holds C09\'s sequence and override nothing else (rule), whose ExactSizeIterator contract is trusted. NOT decided: the mechanisation of the induction step itself. '
              'Trusted: Engine S summaries of slice indexing/len; C01 (no "?"/"#" inside a valid path).',
         technique='abstract interpretation of scanner MIR in product with a specification automaton (parametric-start and reversed-text modes) + MIR shape rules on all CFG paths (static analysis)',
         engine='S+C',
